@@ -57,6 +57,55 @@ theorem C16_content_length_bounded (h : HS) (t : Str) (hb : h.contentLength ≤ 
     | exact hb
     | (dsimp only; omega)
 
+/-- While scanning, a verdict is only ever a rejection. -/
+def NoPost (h : HS) : Prop := ∀ t, h.result ≠ some (.post t)
+
+theorem onToken_noPost (h : HS) (t : Str) (hn : NoPost h) : NoPost (onToken h t) := by
+  unfold onToken NoPost at *
+  intro t'
+  dsimp only
+  repeat' split
+  all_goals first
+    | exact hn t'
+    | (dsimp only; intro hc; cases hc)
+
+theorem scanLoop_noPost (sc : Scanner) (h : HS) (fuel : Nat) (hn : NoPost h) : NoPost (scanLoop sc h fuel) := by
+  induction fuel generalizing sc h with
+  | zero => exact hn
+  | succ fuel ih =>
+    unfold scanLoop
+    split
+    · exact hn
+    · split
+      · exact hn
+      · exact ih _ _ (onToken_noPost h _ hn)
+
+/-- The request line decides once: after the first token the captured GET query is never
+    changed by headers or body. -/
+theorem onToken_get_stable (h : HS) (t : Str) (hs : h.section_ ≠ 0) : (onToken h t).get = h.get := by
+  unfold onToken
+  split
+  · rename_i h0; exact absurd h0 hs
+  · dsimp only; repeat' split
+    all_goals rfl
+  · rfl
+
+/-- **GET never changes state.** For every byte stream and chunking: an answer that hands text to
+    the action interpreter is given only when the request line was not a GET (the captured GET
+    query is absent) and nothing was rejected while scanning — a GET request line can only be
+    answered with the state, with 401 or with 400. -/
+theorem C16_get_never_acts (serverKey : Str) (chunks : List Str) (t : Str) (h : handle serverKey chunks = .post t) :
+    (scanLoop { chunks := chunks } {} ((chunks.map List.length).sum + 10)).get = none := by
+  unfold handle at h
+  have hnp := scanLoop_noPost { chunks := chunks } {} ((chunks.map List.length).sum + 10) (by intro t' hc; cases hc)
+  generalize scanLoop { chunks := chunks } {} ((chunks.map List.length).sum + 10) = hs at h hnp ⊢
+  cases hr : hs.result with
+  | some r =>
+    rw [C16_reject_is_final serverKey hs r hr] at h
+    subst h
+    exact absurd hr (hnp t)
+  | none => exact (C16_post_body_exact serverKey hs t hr h).2.2
+
 example : handle [107] [[71, 69, 84, 32, 47, 32, 72, 84, 84, 80, 13, 10, 13, 10]] = .unauthorized := by decide
 
 end Fzf.Props.C16
